@@ -144,16 +144,19 @@ func (c *c08Db) registerMulti(regs []c08Reg) error {
 		}
 		prefix := fmt.Sprintf("LM:%d:%s", k, reg.key())
 		store := reg.Store
+		mk := fmt.Sprintf("m%d", k) // names the registration in a TAGS token (store_c08_caller.go)
 		switch reg.Style {
 		case 't':
 			gs.AddEntityEventListener(&c08MultiTyped{c: c, prefix: prefix, store: store}, first, rest...)
 		case 'f':
 			gs.AddEntityEventListenerF(func(e *gEnt) {
+				c.tagCheck(mk, store, "?", c08EntIdRaw(e), e)
 				c.recordMulti(fmt.Sprintf("%s:%s:%s", prefix, c08EntId(e), c.digest(store, e)))
 			}, first, rest...)
 		case 'u':
 			gs.AddListener(func(e boltz.Entity) {
 				g := c08AsGEnt(e)
+				c.tagCheck(mk, store, "?", c08EntIdRaw(g), g)
 				c.recordMulti(fmt.Sprintf("%s:%s:%s", prefix, c08EntId(g), c.digest(store, g)))
 			}, first, rest...)
 		case 'i':
@@ -176,6 +179,7 @@ type c08MultiTyped struct {
 }
 
 func (l *c08MultiTyped) HandleEntityEvent(e *gEnt) {
+	l.c.tagCheck("m"+strings.SplitN(l.prefix, ":", 3)[1], l.store, "?", c08EntIdRaw(e), e)
 	l.c.recordMulti(fmt.Sprintf("%s:%s:%s", l.prefix, c08EntId(e), l.c.digest(l.store, e)))
 }
 
